@@ -11,6 +11,8 @@ import QlibcModel.Encode.Base64
 import QlibcModel.Encode.Query
 import QlibcModel.Props.C17Parsers
 import QlibcModel.Encode.MakewordSpec
+import QlibcModel.Shapes.Encode
+import QlibcModel.Shapes.Conf
 
 namespace Qlibc.Props.C17
 open Qlibc Qlibc.Encode Qlibc.Generated
